@@ -159,7 +159,6 @@ def signature(row, verdict):
 
 def run(ctx):
     global CASES, TREE
-    tc.deterministic_hashing(ctx)
     env.init()
     mc = 2 if ctx.quick else 3
     small = 1
